@@ -83,6 +83,7 @@ def classify(ctx, prog, I, sites, prop, label, extra_ok=None):
             n_unreached += 1
             ctx.ob('[%s] %s in %s unreachable in every analysed mode' % (label, desc, fn), True, nontrivial=False)
     ctx.count('panic_sites_' + label, len(sites))
+    ctx.count('panic_site_kinds_' + label, len(set((k[0], k[2]) for k in sites)))
     ctx.count('discharged_' + label, n_dis)
     ctx.count('unreached_' + label, n_unreached)
     return n_dis, n_unreached, n_inv
@@ -271,6 +272,7 @@ def check_parsers(ctx, prog, which, prop):
                            'loops over the text are abstracted by havocking the state they modify; ranges come from dominating '
                            'comparisons; std / regex facts come from the contract table')
     I = inputs.make_interp(prog, fuel=10000000)
+    I.strict_unknown = False      # unknown callees are findings here (report_side_conditions), not aborts
     entries = []
     for self_ty in which:
         k = find_impl(prog, 'std::str::FromStr', self_ty, 'from_str')
